@@ -226,6 +226,10 @@ def run(ctx: Ctx):
     # documents without any measure (header + terminator, interpretations only)
     for k_, cs in enumerate(cases(ctx, 'c07-tiny', 12 if ctx.tier == 'quick' else 40)):
         one(ctx, cs, 'tiny', {'types': ('**kern',), 'p_sig': [0.3, 0.9][k_ % 2]}, core=True)
+    # scores whose text ends without the '*-' row: after the last barline, or after the last notes
+    for k_, cs in enumerate(cases(ctx, 'c07-unterminated', 10 if ctx.tier == 'quick' else 40)):
+        one(ctx, cs, 'kern_core', {'unterminated': True, 'final_barline': ['always', 'never', 'always'][k_ % 3], 'measures': (1, 5),
+                                   'p_split': 0.0, 'max_spines': 2}, core=True)
     # derived documents (clone / to_transposed / concat result) of core scores
     for k_, cs in enumerate(cases(ctx, 'c07-derived', n_core // 3)):
         pname, over = MC.profiles(ctx.tier)[k_ % 8]
